@@ -213,6 +213,13 @@ def rule_guard(ctx, px):
             t = ast.unparse(d.test)
             if "RESERVED_GLOBAL_NAMESPACES" in t and "RESERVED_GLOBAL_NAMES" in t and "_allow_replacements" not in t:
                 reserved = True
+            if t == "global_name in self.globals":
+                # unconditional refusal of every existing name covers the reserved ones provided they are installed
+                # before: a dominating loop assigns self.globals[<ns>] over RESERVED_GLOBAL_NAMESPACES and now_utc
+                inst_ns = any(isinstance(x, ast.For) and "RESERVED_GLOBAL_NAMESPACES" in ast.unparse(x.iter)
+                              and "self.globals[" in ast.unparse(x) for x in dom)
+                inst_now = any(isinstance(x, ast.Assign) and ast.unparse(x.targets[0]) in ("self.globals['now_utc']",) for x in dom)
+                reserved = inst_ns and inst_now
     ctx.ob(R, init.module.rel, f"{init.short} :: reserved namespaces/names are refused unconditionally", reserved, "", ust.lineno)
     # (ii) nothing after the insertion overwrites globals wholesale
     top = ust
